@@ -371,9 +371,10 @@ PROPS = {
     },
     'C11': {
         'props_file': 'props/C11.v',
-        'domains': [{'name': 'conc-loc', 'ok_is_spec': True, 'quick': 400, 'thorough': 20000, 'thorough_shards': 10, 'race': 150, 'race_thorough': 3000}],
-        'spec_ops': ['linearizable', 'no-crash'],
-        'corr': 'corr.conc (CorrConc.check_conc) on histories through ONE sys.System from a cold start, one location per client + race-detector runs',
+        'domains': [{'name': 'conc-loc', 'ok_is_spec': True, 'quick': 400, 'thorough': 20000, 'thorough_shards': 10, 'race': 150, 'race_thorough': 3000},
+                    {'name': 'conc-http', 'ok_is_spec': True, 'quick': 150, 'thorough': 6000, 'thorough_shards': 10}],
+        'spec_ops': ['linearizable', 'no-crash', 'non-interference'],
+        'corr': 'corr.http (CorrHttp.check_http: K clients, one location each, concurrent requests to ONE service.HTTPService; a non-interference oracle on the final contents of every location and on the values the events returned) and corr.conc (CorrConc.check_conc) on histories through ONE sys.System from a cold start, one location per client + race-detector runs',
         'rule': 'conc-loc: 2-3 client goroutines, each with its own location, 2-4 operations each through the sys.System API of one System, released together from process start (storage, cache entries and locations are created by the concurrent first requests); '
                 'per-location results and final states are judged against the sequential model of each location; race runs under the Go race detector; non-trivial = two operations overlap in time; distinct by hash of inputs',
         'level_text': 'Coq theorems over the system model: interleave_equiv_sequential (for ANY interleaving of request histories addressed to different, unrelated locations, every location ends in the state - and every request returns the result - of its own sequential history: by the frame theorems of C09), '
